@@ -18,6 +18,11 @@ are lists with a head atom:
   (errin k) | (errin)   error passed to join; (ok b) (err k) toerror
   (kind <opname>)       for `build`: which wrapper the package contains
 
+Helpers that return a function value (all C15 wrappers, compose, toerror, fmap's error form with two or
+more results, and the split form of bind `(split 1)`: `fn, e := deriveFmap(f, g); deriveJoin(fn, e)`)
+are observed at three moments: `p:<calls made before the first invocation>#<outcome of invocation 1>#
+<outcome of invocation 2>`, each invocation with a fresh log (`#nil:<err>` for a nil function).
+
 Values are payloads (`0` = the zero value of the type). The instrumented functions compute result `j`
 as `hh tag j args`. Answers:
   behaviour ops   model=<nocompile|outcome> spec=<outcome>
@@ -135,6 +140,21 @@ def whyNames (ns : List Name) (binders : List Name) (void : Bool := false) : Str
   else if !Plumb.nodupB (ns.filter Plumb.usable) then "dup"
   else "other"
 
+/-- a returned function: nothing before the first invocation, the same outcome on every invocation -/
+def twice (o : String) : String := s!"p:#{o}#{o}"
+
+def showFn (pre : ErrChain.Log Nat) (o1 o2 : String) : String := s!"p:{showLog pre}#{o1}#{o2}"
+
+/-- observation of a function-valued result: log at return, then two invocations with a fresh log each -/
+def showFnResult (r : ErrChain.FnResult Nat Err) : String :=
+  match r.fn with
+  | none => s!"p:{showLog r.log}#nil:{showErr r.err}"
+  | some t =>
+    -- what invocation k adds to the log: the difference between `logAfter k` and `logAfter (k-1)`
+    let d1 := (t.logAfter r.log 1).drop r.log.length
+    let d2 := (t.logAfter r.log 2).drop (t.logAfter r.log 1).length
+    showFn r.log (showResult { res := t.vals, err := r.err, log := d1 }) (showResult { res := t.vals, err := r.err, log := d2 })
+
 def answer (wfOk : Bool) (model spec : String) : String :=
   if wfOk then s!"model={model} spec={spec}" else s!"model=nocompile spec={spec}"
 
@@ -224,14 +244,14 @@ def runPlumb (s : DState) (fl : Flags) (name : String) (args : List SExp) : Opti
   | "tuple" =>
     let ts ← parseTyIds args "ts"
     if vs.length != ts.length then none else
-    some (answer ok (showOut (Plumb.runTuple ts vs)) (showOut (Spec.tupleSpec vs)))
+    some (answer ok (twice (showOut (Plumb.runTuple ts vs))) (twice (showOut (Spec.tupleSpec vs))))
   | "uncurry" =>
     let outer ← parseParams args "outer"
     let inner ← parseParams args "inner"
     let rs ← parseTyIds args "rs"
     if vs.length != outer.length + inner.length || outer.length != 1 then none else
     let f := results s fTag rs
-    some (answer ok (showOut (Plumb.runUncurry cfg outer inner f vs)) (showOut (Spec.uncurrySpec f vs)))
+    some (answer ok (twice (showOut (Plumb.runUncurry cfg outer inner f vs))) (twice (showOut (Spec.uncurrySpec f vs))))
   | _ =>
     let ps ← parseParams args "ps"
     let rs ← parseTyIds args "rs"
@@ -239,15 +259,15 @@ def runPlumb (s : DState) (fl : Flags) (name : String) (args : List SExp) : Opti
     let f := results s fTag rs
     match name, vs with
     | "curry", a :: rest =>
-      some (answer ok (showOut (Plumb.runCurry cfg ps f a rest)) (showOut (Spec.currySpec f a rest)))
+      some (answer ok (twice (showOut (Plumb.runCurry cfg ps f a rest))) (twice (showOut (Spec.currySpec f a rest))))
     | "flip", a :: b :: rest =>
       -- the op line lists the arguments in f's order; the wrapper is called with the first two swapped
-      some (answer ok (showOut (Plumb.runFlip cfg ps f (b :: a :: rest))) (showOut (Spec.flipSpec f (b :: a :: rest))))
+      some (answer ok (twice (showOut (Plumb.runFlip cfg ps f (b :: a :: rest)))) (twice (showOut (Spec.flipSpec f (b :: a :: rest)))))
     | "apply", _ =>
       let last := vs.getLast?.getD 0
-      some (answer ok (showOut (Plumb.runApply cfg ps f last vs.dropLast)) (showOut (Spec.applySpec f last vs.dropLast)))
+      some (answer ok (twice (showOut (Plumb.runApply cfg ps f last vs.dropLast))) (twice (showOut (Spec.applySpec f last vs.dropLast))))
     | "uncurrycurry", _ =>
-      some (answer ok (showOut (Plumb.runUncurryCurry cfg ps f vs)) (showOut (Spec.callOnce f vs)))
+      some (answer ok (twice (showOut (Plumb.runUncurryCurry cfg ps f vs))) (twice (showOut (Spec.callOnce f vs))))
     | _, _ => none
 
 def runChain (s : DState) (fl : Flags) (name : String) (args : List SExp) : Option String := do
@@ -264,14 +284,20 @@ def runChain (s : DState) (fl : Flags) (name : String) (args : List SExp) : Opti
     if vs.length != ins.length then none else
     let stages := outs.zipIdx.map fun (rs, i) => stage s fail i rs
     let zeros := zerosFor (outs.getLast?.getD [])
-    some (answer ok (showResult (ErrChain.compose zeros stages vs)) (showResult (Spec.composeSpec zeros stages vs)))
+    -- building the composed function calls nothing; every invocation runs the chain
+    some (answer ok (twice (showResult (ErrChain.compose zeros stages vs))) (twice (showResult (Spec.composeSpec zeros stages vs))))
   | "fmape" =>
     let a ← parseTyIds args "in"
     let outs ← parseTyIds args "outs"
     let fail ← parseFail args
     let g := stage s fail 0 a
     let f := results s 1 outs
-    -- one result: its zero; two or more: the nil function (one zero); none: nothing
+    if outs.length ≥ 2 then
+      -- the result is a function value: observed when fmap returns and on two invocations
+      let fs : ErrChain.Stage Nat Err := { run := fun a => (f a, none) }
+      some (answer ok (showFnResult (ErrChain.fmapEFn g fs)) (showFnResult (Spec.fmapEFnSpec g fs)))
+    else
+    -- one result: its zero; none: nothing
     let zeros := match outs with
       | [] => []
       | _ => [0]
@@ -291,7 +317,21 @@ def runChain (s : DState) (fl : Flags) (name : String) (args : List SExp) : Opti
     let fail ← parseFail args
     let g := stage s fail 0 a
     let f := stage s fail 1 outs
-    some (answer ok (showResult (ErrChain.bindE (zerosFor outs) g f)) (showResult (Spec.bindESpec (zerosFor outs) g f)))
+    let split ← match ← parseNats args "split" with
+      | [b] => some (b != 0)
+      | _ => none
+    let zeros := zerosFor outs
+    if split then
+      -- `fn, e := deriveFmap(f, g)` observed, then `deriveJoin(fn, e)` twice
+      let fr := ErrChain.fmapEFn g f
+      let inv := match ErrChain.joinFn zeros fr.fn fr.err with
+        | some r => showResult r
+        | none => "panic"
+      let sp := Spec.bindESpec zeros g f
+      let invS := showResult { res := sp.res, err := sp.err, log := [] }
+      some (answer ok (showFn fr.log inv inv) (showFn sp.log invS invS))
+    else
+      some (answer ok (twice (showResult (ErrChain.bindE zeros g f))) (twice (showResult (Spec.bindESpec zeros g f))))
   | "traverse" =>
     let out ← parseTyIds args "outs"
     let fail ← parseFail args          -- (fail i k): the call on element index i fails
@@ -323,7 +363,7 @@ def runChain (s : DState) (fl : Flags) (name : String) (args : List SExp) : Opti
       | _ => none
     if vs.length != ps.length then none else
     let f : List Nat → List Nat × Bool := fun a => (results s 0 rs a, okFlag)
-    some (answer ok (showResult (ErrChain.toError (9, k) f vs)) (showResult (Spec.toErrorSpec (9, k) f vs)))
+    some (answer ok (twice (showResult (ErrChain.toError (9, k) f vs))) (twice (showResult (Spec.toErrorSpec (9, k) f vs))))
   | _ => none
 
 def plumbOps : List String := ["curry", "flip", "apply", "uncurry", "uncurrycurry", "tuple"]
